@@ -331,7 +331,7 @@ Definition wsitem_lex (i : wsitem) : bool :=
   end.
 Definition ws_lex (w : ws) : bool :=
   lex_ident (w_name w) && forallb wsitem_lex (w_items w)
-  && match w_desc w with Some fs => forallb field_lex fs | None => true end.
+  && match w_desc w with Some fs => forallb (fun d => lex_ident (d_name d)) fs | None => true end.
 Definition lexical (a : schema) : bool :=
   forallb (fun p => lex_ident (p_name p) && forallb ws_lex (p_wss p)) a.
 End Lexical.
@@ -388,13 +388,14 @@ Definition agrees (t : trace) : bool :=
   match t with
   | TModel a texts out obs =>
     texts_eqb (render a) texts
-    && match compile16 a, out with
+    && (go_abstains a (* name resolution / descriptor references as they were before F26, F27, F29: not modelled *) ||
+       match compile16 a, out with
        | VCompiled d, Compiled items _ _ => builder_valid items && dump_match acl_cmp d items && to_built obs
        | VPanic, Rejected true => true
        | VError, Rejected panicked => negb (to_accepted obs) && (negb panicked || negb (wf a))
        | VInvalid, Rejected false => to_accepted obs && negb (to_built obs)
        | _, _ => false
-       end
+       end)
   | TBuilder d accepted => Bool.eqb (builder_valid d) accepted
   | TText _ => true
   end.
